@@ -185,31 +185,37 @@ def _work(job):
         res['runs'].append(r)
         res.update(status=r['status'], model=None, time=r['time'], backend=r['solver'])
         return res
-    r = _z3_check(text, Z3_TIMEOUT_MS if tier == 'thorough' else min(Z3_TIMEOUT_MS, 30000), want_model)
+    r = _z3_check(text, 30000 if tier == 'thorough' else 12000, want_model)
     res['runs'].append({k: v for k, v in r.items() if k != 'model'})
     status = r['status']
     model = r.get('model')
+    cand = None
     if status == 'unknown':
-        r2 = _z3_check(text, Z3_TIMEOUT_MS, want_model, seed=7)
+        r3 = _cvc5_check(text, CVC5_TIMEOUT_MS if tier == 'thorough' else 20000)
+        res['runs'].append(r3)
+        if r3['status'] == 'unsat':
+            status = 'unsat'
+    if status == 'unknown':
+        # the quantifier-free part alone: unsat => proved (fewer hypotheses suffice); sat => only a CANDIDATE model
+        r4 = _relaxed_check(text, 20000, want_model)
+        res['runs'].append({k: v for k, v in r4.items() if k != 'model'})
+        if r4['status'] == 'unsat':
+            status = 'unsat'
+        elif r4['status'] == 'sat':
+            cand = r4.get('model')
+    if status == 'unknown':
+        r2 = _z3_check(text, Z3_TIMEOUT_MS if tier == 'thorough' else 25000, want_model, seed=7)
         res['runs'].append({k: v for k, v in r2.items() if k != 'model'})
         if r2['status'] != 'unknown':
             status, model = r2['status'], r2.get('model')
-    if status == 'unknown' or tier == 'thorough':
-        r3 = _cvc5_check(text, CVC5_TIMEOUT_MS if status == 'unknown' else 20000)
+    if status in ('sat', 'unsat') and tier == 'thorough' and not any(x['solver'].startswith('cvc5') for x in res['runs']):
+        r3 = _cvc5_check(text, 20000)
         res['runs'].append(r3)
-        if status == 'unknown' and r3['status'] == 'unsat':
-            status = 'unsat'
-        elif status == 'unknown' and r3['status'] == 'sat':
-            status = 'sat'
-        elif status != 'unknown' and r3['status'] != 'unknown' and r3['status'] != status:
+        if r3['status'] in ('sat', 'unsat') and r3['status'] != status:
             status = 'disagree'
-    if status == 'unknown':
-        # counterexample mode: a model of the quantifier-free part is only a CANDIDATE (status 'sat?');
-        # it is believed only after native replay on the real code (cli)
-        r4 = _relaxed_check(text, 20000, want_model)
-        res['runs'].append({k: v for k, v in r4.items() if k != 'model'})
-        if r4['status'] == 'sat':
-            status, model = 'sat?', r4.get('model')
+    if status == 'unknown' and cand is not None:
+        # counterexample mode: believed only after native replay on the real code (cli)
+        status, model = 'sat?', cand
     res['status'] = status
     res['model'] = model
     res['time'] = sum(x['time'] for x in res['runs'])
